@@ -290,6 +290,11 @@ def run(ctx):
     for k in range(4 if q else 40):
         sources.append(("gen-sampler%d.sunsynth" % k, api.Synth(gen.rand_module(rnd, cl["Sampler"], spec, depth=1, in_project=False)).read()))
         sources.append(("gen-meta%d.sunsynth" % k, api.Synth(gen.rand_module(rnd, cl["MetaModule"], spec, depth=2, in_project=False)).read()))
+    for k in range(3 if q else 30):     # payload-bearing types whose payload is only *used* under some controller values
+        for t in ("Generator", "Analog generator", "FMX", "SpectraVoice", "WaveShaper", "MultiSynth", "MultiCtl"):
+            if q and (k + len(t)) % 3:
+                continue
+            sources.append(("gen-%s%d.sunsynth" % (t.replace(" ", ""), k), api.Synth(gen.rand_module(rnd, cl[t], spec, depth=1, in_project=False)).read()))
     per = 16 if q else 80
     traces = []
     kinds = {}
